@@ -13,6 +13,7 @@
     columns captured in load_data from the incoming frame, not this run's derived columns (F34);
  R4 caller-owned arguments of the entry points are not mutated in place (a second run with the same objects would
     otherwise see different arguments);
+ R4.kept-reference: attributes that keep a caller's container by reference are never changed in place, directly or through a local alias;
  R5 nothing written during a run outlives the client: no function fills a class-level or module-level container, no memoising
     decorator on reachable code.
 """
@@ -330,6 +331,75 @@ def _order_uses(f, node, out, via=None, depth=0):
     out.append((p, f"used in {type(p).__name__}"))
 
 
+INPLACE_METHODS = {"append", "extend", "insert", "remove", "pop", "sort", "reverse", "clear", "update", "setdefault", "add", "discard", "popitem"}
+
+
+def _kept_references(ctx, mu, ge, reach):
+    """R4.kept-reference: an object built in get_estimates that keeps one of the caller's containers BY REFERENCE (self.x = x in its
+    constructor, the argument coming from a parameter / keyword / mutable default of the entry point) must never mutate it in place - neither
+    may anyone who reads the attribute (`alphas = handler.x; alphas += [..]` extends the caller's list, or the shared default list of the
+    entry point itself, for every later run of the process)."""
+    from .. import ir as _ir
+    repo = ctx.repo
+    gs = mu.summary(ge)
+    owned = {"current_data", "preprocessed_data", "model_parameters", "prediction_intervals", "estimands", "kwargs"}
+    kept = {}  # attribute name -> (class name, parameter of the entry point)
+    seen = set()
+    for top in [t for _, _, t, _ in gs.assigns] + [t for _, t, _ in gs.effects]:
+        for x in _ir.walk(top):
+            if x in seen or x[0] != "call" or x[1][0] != "global" or ":" not in x[1][1]:
+                continue
+            seen.add(x)
+            modn, cn = x[1][1].split(":", 1)
+            try:
+                cls = repo.cls(modn, cn)
+            except Exception:
+                continue
+            init = cls.lookup("__init__") if cls is not None else None
+            if init is None:
+                continue
+            bind = _ir.bind_args(init, x[2], tuple(kv for kv in x[3] if kv[0] and not kv[0].startswith("#")), method=True) or {}
+            isum = mu.summary(init)
+            for q, arg in bind.items():
+                rs = mu.roots(arg, ge) & owned
+                if not rs and any(y[0] == "call" and y[1] == ("attr", ("param", "kwargs"), "get") for y in _ir.walk(arg)) and arg[0] in ("call", "phi", "ifexp"):
+                    rs = {"kwargs"}
+                if not rs:
+                    continue
+                for pc_, attr, val, node in isum.attr_writes:
+                    if val == ("param", q):
+                        kept[attr] = (cn, sorted(rs)[0])
+    ctx.sites("C12.R4.kept-reference", len(kept), 2, "attributes that keep a caller's object by reference (results handler: aggregates, interval levels)")
+    nbad = 0
+    for f in reach:
+        for n in util.own_nodes(f):
+            tgt = None
+            if isinstance(n, ast.AugAssign) and isinstance(n.op, ast.Add) and isinstance(n.value, (ast.List, ast.ListComp, ast.Tuple)):
+                tgt, how = n.target, "+= <list> extends the list in place"
+            elif isinstance(n, ast.Call) and isinstance(n.func, ast.Attribute) and n.func.attr in INPLACE_METHODS:
+                tgt, how = n.func.value, f".{n.func.attr}() changes it in place"
+            elif isinstance(n, (ast.Assign, ast.Delete)):
+                for t_ in (n.targets if isinstance(n, (ast.Assign, ast.Delete)) else []):
+                    if isinstance(t_, ast.Subscript):
+                        tgt, how = t_.value, "item assignment changes it in place"
+            if tgt is None:
+                continue
+            cands = [tgt]
+            if isinstance(tgt, ast.Name):
+                cands = [d for d in _defs(f, tgt.id)]  # (a parameter that is re-bound in the function counts with what it is re-bound to)
+            for c in cands:
+                if isinstance(c, ast.Attribute) and c.attr in kept and not (isinstance(c.value, ast.Name) and c.value.id != "self" and False):
+                    cn, par = kept[c.attr]
+                    # a frame attribute written column by column is the handler's own business only when the frame is the client's own
+                    nbad += 1
+                    ctx.ob("C12.R4.kept-reference", util.key(f, n), False, f.where(n),
+                           f"{ast.unparse(tgt)[:50]}: {how}, and it is {cn}.{c.attr}, which keeps the object the caller passed as '{par}' (or the entry point's "
+                           f"own mutable default) by reference: the next run with the same arguments does not see the same arguments")
+    if not nbad:
+        ctx.ob("C12.R4.kept-reference", f"{ge.qualname}|objects kept by reference are never changed in place", True, ge.where(),
+               f"{len(kept)} attributes keep a caller's object by reference ({', '.join(sorted(kept))}); none is extended, updated or item-assigned anywhere")
+
+
 def check(ctx):
     repo = ctx.repo
     cg = ctx.cg
@@ -621,6 +691,7 @@ def check(ctx):
                    else f"caller-owned argument '{p}' is modified in place: {hits[0][1]} - a second run given the same object "
                         f"sees different data")
     ctx.count("C12.R4.functions_summarised", len(mu._sum))
+    _kept_references(ctx, mu, ge, reach)
 
     # ---- R7 the national summary table is built from this call alone ----------------------------------------
     # "The same holds for the national summary": one estimate run can be followed by several summary calls (other weights, base, levels).
